@@ -103,17 +103,29 @@ def d1_policy(chk: Check) -> None:
                  "documents")
     # dispatch If: `if not anchors_match:`
     disp = None
+    disp_body: List[ast.stmt] = []
+    disp_else: List[ast.stmt] = []
     for n in walk_local(loop[0]):
-        if isinstance(n, ast.If) and isinstance(n.test, ast.UnaryOp) and \
+        if not isinstance(n, ast.If):
+            continue
+        if isinstance(n.test, ast.UnaryOp) and \
                 isinstance(n.test.op, ast.Not) and any(
                     mv in src(x) for x in walk_local(n)):
-            disp = n
+            disp, disp_body, disp_else = n, n.body, n.orelse
+            match_var = src(n.test.operand)
+        elif isinstance(n.test, ast.Name) and n.orelse and any(
+                mv in src(x) for s_ in n.orelse for x in walk_local(s_)) \
+                and not any(mv in src(x) for s_ in n.body
+                            for x in walk_local(s_)):
+            # the same decision with the arms swapped:
+            # `if <equal>: unify` / `else | elif ...: dispatch`
+            disp, disp_body, disp_else = n, n.orelse, n.body
+            match_var = src(n.test)
     if disp is None:
         chk.fail("C10-D1", fi, loop[0], "dispatch guard",
                  "the policy dispatch is not guarded by `not <anchors "
                  "equal>`")
         return
-    match_var = src(disp.test.operand)  # type: ignore[attr-defined]
     # a conflict is declared nowhere else: any other raise of the merge
     # exception / consultation of the mode decides "conflict" by a test of
     # its own, which need not agree with the equality computed here
@@ -137,6 +149,28 @@ def d1_policy(chk: Check) -> None:
     eq_defs = [src(n.value) for n in walk_local(loop[0])
                if isinstance(n, ast.Assign) and
                src(n.targets[0]) == match_var]
+    eq_calls = [n.value for n in walk_local(loop[0])
+                if isinstance(n, ast.Assign) and
+                src(n.targets[0]) == match_var and
+                isinstance(n.value, ast.Call)]
+    if len(eq_defs) == 1 and len(eq_calls) == 1:
+        # the comparison lives in a helper that is given the two nodes:
+        # read the definitions of the value it returns, in the caller's terms
+        from sa.interproc import arg_map, subst
+        from sa.model import resolve_call
+        callee = resolve_call(prog, fi, eq_calls[0])
+        cfi = callee[0] if isinstance(callee, list) and callee else callee
+        am = arg_map(cfi, eq_calls[0]) if cfi is not None else None
+        if cfi is not None and am is not None:
+            rets = [r.value for r in walk_local(cfi.node)
+                    if isinstance(r, ast.Return) and r.value is not None]
+            if len(rets) == 1 and isinstance(rets[0], ast.Name):
+                eq_defs = [src(subst(n.value, am))
+                           for n in walk_local(cfi.node)
+                           if isinstance(n, ast.Assign) and
+                           src(n.targets[0]) == rets[0].id]
+            elif len(rets) >= 1:
+                eq_defs = [src(subst(r, am)) for r in rets]
     if any("{} == {}".format(lnode, rnode) == d for d in eq_defs) and \
             any(".value ==" in d and ".tag.value ==" in d for d in eq_defs):
         chk.ok("C10-D1", fi, disp, "equality test",
@@ -156,7 +190,7 @@ def d1_policy(chk: Check) -> None:
     if set(members) != set(want):
         raise AnalysisError("AnchorConflictResolutions members changed")
     for m in members:
-        res = pe.specialise(disp.body,
+        res = pe.specialise(disp_body,
                             {mv: Enum("AnchorConflictResolutions", m)},
                             pinned=[mv])
         calls = [c for s in res for c in ast.walk(s)
@@ -188,7 +222,7 @@ def d1_policy(chk: Check) -> None:
                      .format(m, kind, ", ".join(args), got),
                      {"residual": show(res)[:500]})
     # equal anchors: unified by replacing left nodes with right ones
-    calls = [c for s in disp.orelse for c in walk_local(s)
+    calls = [c for s in disp_else for c in walk_local(s)
              if isinstance(c, ast.Call) and src(c.func).startswith("Anchors.")]
     if len(calls) == 1 and src(calls[0].func) == "Anchors.replace_anchor" \
             and [src(a) for a in calls[0].args] == ["self.data", lnode, rnode]:
